@@ -149,3 +149,108 @@ def compile_spec(spec, codec, numeric_enums=False, rec=None):
 def short(v, n=300):
     s = repr(v)
     return s if len(s) <= n else s[:n] + '...'
+
+
+# ---------------------------------------------------------------------------
+# walkers (used by known-finding predicates and by several oracles)
+
+class Node(object):
+    __slots__ = ('r', 'ty', 'mod', 'parent', 'member', 'path', 'value', 'skippable', 'index',
+                 'in_additions')
+
+    def __init__(self, **kw):
+        self.value = NOVALUE
+        self.member = None
+        self.parent = None
+        self.skippable = False
+        self.index = None
+        self.in_additions = False
+        for k, v in kw.items():
+            setattr(self, k, v)
+
+
+class _NoValue(object):
+    def __repr__(self):
+        return '<no value>'
+
+
+NOVALUE = _NoValue()
+
+
+def walk_types(spec, ty, modname, path='', parent=None, member=None, _seen=None, **kw):
+    r = asn.resolve(spec, ty, modname)
+    n = Node(r=r, ty=ty, mod=modname, parent=parent, member=member, path=path, **kw)
+    yield n
+    b = r.base
+    _seen = _seen or ()
+    if id(b) in _seen:
+        return
+    _seen = _seen + (id(b),)
+    if b.kind in ('SEQUENCE', 'SET', 'CHOICE'):
+        adds = set()
+        for a in (b.ext or []):
+            for m in (a.members if isinstance(a, asn.Group) else [a]):
+                adds.add(id(m))
+        for i, m in enumerate(b.all_members()):
+            for x in walk_types(spec, m.ty, r.mod, path + '.' + m.name, n, m, _seen,
+                                skippable=(m.optional or m.has_default or id(m) in adds),
+                                index=i, in_additions=id(m) in adds):
+                yield x
+    elif b.kind in ('SEQUENCE OF', 'SET OF'):
+        for x in walk_types(spec, b.elem, r.mod, path + '[]', n, None, _seen):
+            yield x
+
+
+def walk_values(spec, ty, modname, value, path='', parent=None, member=None):
+    r = asn.resolve(spec, ty, modname)
+    n = Node(r=r, ty=ty, mod=modname, parent=parent, member=member, path=path, value=value)
+    yield n
+    b = r.base
+    try:
+        if b.kind in ('SEQUENCE', 'SET') and isinstance(value, dict):
+            for m in b.all_members():
+                if m.name in value:
+                    for x in walk_values(spec, m.ty, r.mod, value[m.name], path + '.' + m.name, n, m):
+                        yield x
+        elif b.kind == 'CHOICE' and isinstance(value, tuple) and len(value) == 2:
+            for m in b.all_members():
+                if m.name == value[0]:
+                    for x in walk_values(spec, m.ty, r.mod, value[1], path + '.' + m.name, n, m):
+                        yield x
+        elif b.kind in ('SEQUENCE OF', 'SET OF') and isinstance(value, list):
+            for i, v in enumerate(value[:50]):
+                for x in walk_values(spec, b.elem, r.mod, v, '%s[%d]' % (path, i), n, None):
+                    yield x
+    except Exception:
+        return
+
+
+def zero_width(spec, ty, modname, _depth=0):
+    """True if every value of the type has an empty PER/OER-style encoding
+    (no length, no index, no content): NULL, fixed SIZE(0), single-value INTEGER,
+    member-less SEQUENCE/SET, one-item non-extensible ENUMERATED, ..."""
+    if _depth > 8:
+        return False
+    r = asn.resolve(spec, ty, modname)
+    b = r.base
+    k = b.kind
+    if k == 'NULL':
+        return True
+    if k == 'INTEGER':
+        return r.rng is not None and not r.rng.ext and r.rng.lo is not None and r.rng.lo == r.rng.hi
+    if k in ('OCTET STRING', 'BIT STRING', 'SEQUENCE OF', 'SET OF') or k in asn.STRING_KINDS:
+        z = r.size is not None and not r.size.ext and r.size.lo == 0 and r.size.hi == 0
+        return z and k not in ('UTF8String', 'GeneralString', 'GraphicString', 'TeletexString')
+    if k == 'ENUMERATED':
+        return len(b.enum_root) == 1 and b.enum_ext is None
+    if k in ('SEQUENCE', 'SET'):
+        if b.ext is not None or spec.by_name[r.mod].ext_implied:
+            return False
+        return all((not m.optional and not m.has_default and zero_width(spec, m.ty, r.mod, _depth + 1))
+                   for m in b.all_members())
+    if k == 'CHOICE':
+        if b.ext is not None or spec.by_name[r.mod].ext_implied:
+            return False
+        ms = b.all_members()
+        return len(ms) == 1 and zero_width(spec, ms[0].ty, r.mod, _depth + 1)
+    return False
